@@ -433,25 +433,12 @@ func VerifMerge() {
 	sc := base.Schema
 	if prop == 3 {
 		// ---- C03 ----
-		// the two recorded classes are judged on paths of their own (section 1, 2), so that they hide
-		// nothing else: section 0 checks every other obligation on the same descriptors
-		section := 0
-		if vNodeInSomeOnly(svcs) && verifChoice("section.node", 2) == 1 {
-			section = 1
-			verifKnown("C03-node-field-in-some-services-only", true)
-		}
-		if section != 0 {
-			for _, s := range svcs {
-				if section == 1 && s.node {
-					verifAssert(sc.Types["Query"].Fields.ForName("node") != nil, "the node entry point of a service is in the gateway schema")
-				}
-			}
-			verifReach("merged schema checked")
-			return
-		}
 		for _, s := range svcs {
 			t := s.t
 			verifAssert(sc.Types["Query"].Fields.ForName("q"+verifItoa(s.idx)) != nil, "every root field of every service is in the gateway schema")
+			if s.node {
+				verifAssert(sc.Types["Query"].Fields.ForName("node") != nil, "the node entry point of a service is in the gateway schema")
+			}
 			if s.probe {
 				verifAssert(sc.Types["Query"].Fields.ForName("lookup") != nil, "every root field of every service is in the gateway schema (lookup)")
 			}
@@ -633,7 +620,6 @@ func vNodeInSomeOnly(svcs []vService) bool {
 
 func vKnown05(svcs []vService, conflict string) {
 	verifKnown("C05-shared-field-different-signature", conflict == "shared field with different type or arguments")
-	verifKnown("C05-node-field-in-some-services-only", vNodeInSomeOnly(svcs))
 	probe := false
 	for _, s := range svcs {
 		probe = probe || s.probe
@@ -688,7 +674,6 @@ func vKnown05(svcs []vService, conflict string) {
 }
 
 func vKnown03(svcs []vService) {
-	verifKnown("C03-node-field-in-some-services-only", vNodeInSomeOnly(svcs))
 	probe := false
 	for _, s := range svcs {
 		probe = probe || s.probe
